@@ -1419,7 +1419,8 @@ fn opt_spec() -> impl Strategy<Value = OptSpec> {
     opt(text()),
     opt(text()),
     opt(prop::sample::select(URLS.to_vec()).prop_map(str::to_string)),
-    opt(text()),
+    // the empty string is a nonce like any other
+    prop_oneof![8 => opt(text()).boxed(), 1 => Just(Some(String::new())).boxed()],
     any::<bool>(),
     custom_members(3),
   )
